@@ -108,8 +108,9 @@ let c_same_a = mk "C20SameA" 11 [ fs "A"; fi "B" ] []     (* both are called Sam
 let c_same_b = mk "C20SameB" 12 [ fi "B"; fs "A" ] []
 let c_ptrm = mk "C20PtrM" 13 [ fs "A" ]
     [ pm "GetA" (path [ 0 ]); pm "Ptr" (str "ptr"); vm "Val" (str "val") ]
+let c_ptronly = mk "C20PtrOnly" 14 [ fs "A" ] [ pm "GetA" (path [ 0 ]); pm "Ptr" (str "ptronly") ]
 
-let catalogue = [ c_plain; c_inner; c_outer; c_om; c_uinner; c_ue; c_uep; c_shadow; c_amb; c_deep; c_same_a; c_same_b; c_ptrm ]
+let catalogue = [ c_plain; c_inner; c_outer; c_om; c_uinner; c_ue; c_uep; c_shadow; c_amb; c_deep; c_same_a; c_same_b; c_ptrm; c_ptronly ]
 (* catalogue types a reflect.StructOf type may embed: no methods anywhere *)
 let embeddable = [| c_plain; c_same_a; c_same_b |]
 (* types whose embedded pointers must not be nil: a promoted method would dereference it *)
@@ -289,7 +290,7 @@ let flood_case r oc =
    times in a row, then the probes again.  Variant B: from the empty cache, exactly maxSize pairs in four
    round-robin passes (no eviction on the way), then the probes. *)
 let hot_probe_values r : v list =
-  let byval = List.map (fun t -> rand_value r t) [ c_ptrm; c_outer; c_inner; c_om; c_amb; c_deep; c_ue; c_shadow; c_plain ] in
+  let byval = List.map (fun t -> rand_value r t) [ c_ptrm; c_ptronly; c_outer; c_inner; c_om; c_amb; c_deep; c_ue; c_shadow; c_plain ] in
   let nils = [ VSt (c_uep, [ VNilPtr c_uinner; VS (rand_word r) ]); rand_value r c_uep ] in
   let dyn = List.init 4 (fun _ ->
       (* at least one embedded pointer at the top, nil half of the time, with promoted fields behind it *)
@@ -297,7 +298,7 @@ let hot_probe_values r : v list =
       let t = rand_type r 2 in
       let t = { t with fields = { fn = "Emb"; fk = KEmb (true, inner) } :: t.fields } in
       rand_value ~nil1in:2 r t) in
-  let ptrs = [ VPtr (rand_value r c_ptrm); VPtr (rand_value r c_outer) ] in
+  let ptrs = [ VPtr (rand_value r c_ptrm); VPtr (rand_value r c_ptronly); VPtr (rand_value r c_outer) ] in
   byval @ nils @ dyn @ ptrs
 
 let hot_case r oc ~variant_b =
